@@ -27,6 +27,9 @@ type FuncContract struct {
 	LoopRet    map[int][]Clause // loop ordinal -> clauses every return executed inside that loop must satisfy (r0, r1, ... = returned values)
 	LoopBrk    map[int][]Clause // loop ordinal -> clauses every break out of that loop must satisfy (`false`: the loop is only left through its condition or a return)
 	LoopMod    map[int][]string // extra havoc targets
+	Alias      map[string][]string // names.go: recorded local name -> new names tried where the recorded one is not in scope
+	renameMap  map[string]string // names.go: the renames applied to this contract (recorded -> current)
+	UnrenameText [][2]string // names.go: (current callee text, recorded callee name) for calls that now go through an indexed function value
 	Unrename   map[string]string // names.go: current identifier -> identifier the contract was written with
 	NoPanic    bool
 	AssumeNoPanic map[string]string // callee -> reason: taken not to panic when called from this nopanic function
